@@ -9,14 +9,24 @@ def plans(quick):
         return [
             dict(family='chain',
                  checks=[dict(steps=4, slots=2, rcs=['r1', 'r2'], fail=False)],
-                 gen=dict(steps=4, slots=1, lists=[['r1'], ['r1', 'r2']], fail=False, restart=False), cover_limit=200,
-                 walks=60, sim=dict(num=200, depth=12, fail=False, rcs=['r1', 'r2', 'r3'])),
+                 gen=dict(steps=4, slots=1, lists=[['r1'], ['r1', 'r2']], fail=False, restart=False), cover_limit=150,
+                 walks=40, sim=dict(num=120, depth=12, rcs=['r1', 'r2', 'r3'])),
             dict(family='diamond',
                  checks=[dict(steps=4, slots=1, rcs=['d1', 'd3'], fail=False, force_sets='all')],
                  gen=dict(steps=3, slots=1, lists=[['d1'], ['d1', 'd2']], fail=False, restart=False, force_sets='all'),
-                 cover_limit=150, walks=40, sim=dict(num=150, depth=10, fail=False, force_sets='all')),
+                 cover_limit=100, walks=30, sim=dict(num=80, depth=10, fail=False, force_sets='all')),
+            dict(family='kinds', opts={'gens': True},
+                 gen=dict(steps=4, slots=1, lists=[['k1']], fail=False, restart=False), cover_limit=120, walks=40,
+                 sim=dict(num=80, depth=10, fail=False, lists=[['k1'], ['k2']])),
+            dict(family='deep',
+                 gen=dict(steps=4, slots=1, lists=[['e1'], ['e1', 'e2']], fail=True, restart=False), cover_limit=120, walks=40,
+                 sim=dict(num=80, depth=12)),
         ]
     return [
+        dict(family='kinds', opts={'gens': True}, checks=[dict(steps=4, slots=1, fail=False)],
+             gen=dict(steps=4, slots=1, fail=False), walks=200, sim=dict(num=800, depth=14)),
+        dict(family='deep', checks=[dict(steps=5, slots=2)], gen=dict(steps=5, slots=1), walks=200, sim=dict(num=800, depth=14)),
+    ] + [
         dict(family=f, checks=[dict(steps=5, slots=2, force_sets='all', fail=False), dict(steps=5, slots=2)],
              gen=dict(steps=4, slots=1, force_sets='all'), walks=300, walk_len=14,
              sim=dict(num=2000, depth=16, force_sets='all'))
